@@ -121,6 +121,9 @@ pub enum HOp {
     /// application republishing a blob it keeps hard-linked; a retry after a crash between link and unlink)
     SetLinked(u8),
     PutLinked(u8),
+    /// (stacked handles) set_temp_file / put_temp_file of the put value: the value is handed over as a temp-file object
+    SetTemp(u8),
+    PutTemp(u8),
     Get(u8),
     Touch(u8),
     Ensure(u8),
@@ -144,7 +147,11 @@ impl Sym {
     fn from_json(v: &Value) -> Sym {
         let s = v[1].as_str().unwrap();
         let nums: Vec<u8> = s.chars().filter(|c| c.is_ascii_digit() || *c == ',').collect::<String>().split(',').filter(|x| !x.is_empty()).map(|x| x.trim().parse().unwrap()).collect();
-        let op = if s.starts_with("SetLinked") {
+        let op = if s.starts_with("SetTemp") {
+            HOp::SetTemp(nums[0])
+        } else if s.starts_with("PutTemp") {
+            HOp::PutTemp(nums[0])
+        } else if s.starts_with("SetLinked") {
             HOp::SetLinked(nums[0])
         } else if s.starts_with("PutLinked") {
             HOp::PutLinked(nums[0])
@@ -164,7 +171,7 @@ impl Sym {
         Sym { handle: v[0].as_u64().unwrap() as u8, op, fire: v[2].as_bool().unwrap(), shard_draw: v[3].as_u64().unwrap() as u8 }
     }
     fn is_write(&self) -> bool {
-        matches!(self.op, HOp::Set(..) | HOp::Put(_) | HOp::Ensure(_) | HOp::SetLinked(_) | HOp::PutLinked(_))
+        matches!(self.op, HOp::Set(..) | HOp::Put(_) | HOp::Ensure(_) | HOp::SetLinked(_) | HOp::PutLinked(_) | HOp::SetTemp(_) | HOp::PutTemp(_))
     }
 }
 
@@ -212,6 +219,10 @@ pub fn alphabet(cfg: &Config) -> Vec<Sym> {
                 }
                 if cfg.front.is_stack() {
                     v.push(Sym { handle: h, op: HOp::Ensure(k), fire, shard_draw: d });
+                    if !fire {
+                        v.push(Sym { handle: h, op: HOp::SetTemp(k), fire, shard_draw: d });
+                        v.push(Sym { handle: h, op: HOp::PutTemp(k), fire, shard_draw: d });
+                    }
                 }
             }
             v.push(Sym { handle: h, op: HOp::Get(k), fire: false, shard_draw: 0 });
@@ -325,7 +336,7 @@ fn exec(live: &mut Live, cfg: &Config, sym: &Sym) -> (Got, Vec<Ev>, Option<PathB
     let (kidx, val) = match sym.op {
         HOp::Set(k, v) => (k, Some(set_val(v))),
         HOp::Put(k) => (k, Some(put_val())),
-        HOp::SetLinked(k) | HOp::PutLinked(k) => (k, Some(put_val())),
+        HOp::SetLinked(k) | HOp::PutLinked(k) | HOp::SetTemp(k) | HOp::PutTemp(k) => (k, Some(put_val())),
         HOp::Ensure(k) => (k, Some(ensure_val())),
         HOp::Get(k) | HOp::Touch(k) => (k, None),
         HOp::Estimates(_) => (0, None),
@@ -396,6 +407,8 @@ fn exec(live: &mut Live, cfg: &Config, sym: &Sym) -> (Got, Vec<Ev>, Option<PathB
                 let o = match op {
                     HOp::Set(_, v) => ops::Op::Set(key.clone(), set_val(v)),
                     HOp::Put(_) | HOp::SetLinked(_) | HOp::PutLinked(_) => ops::Op::Put(key.clone(), put_val()),
+                    HOp::SetTemp(_) => ops::Op::SetTemp(key.clone(), put_val()),
+                    HOp::PutTemp(_) => ops::Op::PutTemp(key.clone(), put_val()),
                     HOp::Ensure(_) => ops::Op::Ensure(key.clone(), Pop::Value(if checked && key.name == "ka" { ro_val() } else { ensure_val() })),
                     HOp::Get(_) => ops::Op::Get(key.clone()),
                     HOp::Touch(_) | HOp::Estimates(_) => ops::Op::Touch(key.clone()),
@@ -615,7 +628,7 @@ fn step(live: &mut Live, cfg: &Config, sym: &Sym, rep: &mut Report) -> Vec<(Stri
     // --- result against the map model (maintenance precedes the operation's own effect)
     let (kidx, _) = match sym.op {
         HOp::Set(k, v) => (k, Some(v)),
-        HOp::Put(k) | HOp::Get(k) | HOp::Touch(k) | HOp::Ensure(k) | HOp::SetLinked(k) | HOp::PutLinked(k) => (k, None),
+        HOp::Put(k) | HOp::Get(k) | HOp::Touch(k) | HOp::Ensure(k) | HOp::SetLinked(k) | HOp::PutLinked(k) | HOp::SetTemp(k) | HOp::PutTemp(k) => (k, None),
         HOp::Estimates(_) => (0, None),
     };
     let key = &keys[kidx as usize];
@@ -636,8 +649,12 @@ fn step(live: &mut Live, cfg: &Config, sym: &Sym, rep: &mut Report) -> Vec<(Stri
             live.model.insert(key.name.clone(), set_val(v));
             Got::Unit
         }
-        HOp::Put(_) => {
+        HOp::Put(_) | HOp::PutTemp(_) => {
             live.model.entry(key.name.clone()).or_insert(put_val());
+            Got::Unit
+        }
+        HOp::SetTemp(_) => {
+            live.model.insert(key.name.clone(), put_val());
             Got::Unit
         }
         HOp::SetLinked(_) | HOp::PutLinked(_) => {
